@@ -1,8 +1,15 @@
 import SnaxVerif.Lemmas.Affine
+import SnaxVerif.Lemmas.StridePattern
+import SnaxVerif.Lemmas.PackBits
+import SnaxVerif.Lemmas.AffineTransform
+import SnaxVerif.Lemmas.AttrSyntax
 /-!
 # C19 — canonical forms and alternative representations denote the same object
 
 Statements and theorems only; helper lemmas live in `Lemmas/`.
+
+Parts: (0) affine-expression canonicaliser, (1) `StridePattern.canonicalize`, (2) `pack_bitlist`,
+(3) `AffineTransform` (matrix form), (4) attribute print -> parse round trips.
 -/
 namespace SnaxVerif.C19
 open SnaxVerif AExpr
@@ -67,5 +74,306 @@ example : canon 10 (.bin .add (.const 1) (.bin .mul (.bin .add (.dim 1) (.dim 0)
 example : (AExpr.bin .mod (.bin .fdiv (.dim 0) (.const 0)) (.const 1)).eval (fun _ => 3) = none ∧
     canon 5 (.bin .mod (.bin .fdiv (.dim 0) (.const 0)) (.const 1)) = some (.const 0) := by
   decide
+
+
+/-! ## (1) `StridePattern.canonicalize` -/
+
+/-- The loop of `StridePattern.canonicalize` preserves the flattened temporal address sequence (as a
+list: same addresses, same order, same multiplicity), for every loop nest: any rank, zero bounds, unit
+bounds, zero / negative strides. (Bounds are naturals; negative bounds are outside the model.) -/
+theorem spCanon_seq (p : List Stride.Loop) : Stride.offs (Stride.canonLoops p) = Stride.offs p :=
+  Stride.canonLoops_offs p
+
+/-- … and it is idempotent. -/
+theorem spCanon_idem (p : List Stride.Loop) :
+    Stride.canonLoops (Stride.canonLoops p) = Stride.canonLoops p :=
+  Stride.canonLoops_idem p
+
+/-- The guard: a pattern with a zero spatial stride is returned unchanged. -/
+theorem stridePattern_guard (p : Stride.Pattern) (h : (0 : Int) ∈ p.ss) : p.canonicalize = p := by
+  unfold Stride.Pattern.canonicalize; rw [if_pos h]
+
+/-- The attribute-level statement: with or without the guard firing, the canonical pattern denotes the
+same temporal address sequence and keeps the spatial strides. -/
+theorem stridePattern_canon_seq (p : Stride.Pattern) :
+    p.canonicalize.addrs = p.addrs ∧ p.canonicalize.ss = p.ss := by
+  by_cases h : (0 : Int) ∈ p.ss
+  · rw [stridePattern_guard p h]; exact ⟨rfl, rfl⟩
+  · refine ⟨?_, ?_⟩
+    · unfold Stride.Pattern.addrs
+      rw [Stride.canonicalize_loops p h, Stride.canonLoops_offs]
+    · unfold Stride.Pattern.canonicalize; rw [if_neg h]
+
+theorem stridePattern_canon_idem (p : Stride.Pattern) :
+    p.canonicalize.canonicalize = p.canonicalize := by
+  have key : ∀ q : Stride.Pattern, (0 : Int) ∉ q.ss → q.canonicalize =
+      { ub := (Stride.canonLoops q.loops).unzip.1, ts := (Stride.canonLoops q.loops).unzip.2, ss := q.ss } := by
+    intro q hq; unfold Stride.Pattern.canonicalize; rw [if_neg hq]
+  by_cases h : (0 : Int) ∈ p.ss
+  · rw [stridePattern_guard p h, stridePattern_guard p h]
+  · have hl := Stride.canonicalize_loops p h
+    have hss : p.canonicalize.ss = p.ss := (stridePattern_canon_seq p).2
+    have h' : (0 : Int) ∉ p.canonicalize.ss := by rw [hss]; exact h
+    rw [key p.canonicalize h', hl, Stride.canonLoops_idem, hss, key p h]
+
+/-- Shape of the canonical form: it verifies (equal lengths), has no unit bound, and every zero bound
+carries stride 0. -/
+theorem stridePattern_canon_shape (p : Stride.Pattern) (h : (0 : Int) ∉ p.ss) :
+    p.canonicalize.verify = true ∧
+    ∀ x ∈ p.canonicalize.loops, x.1 ≠ 1 ∧ (x.1 = 0 → x.2 = 0) := by
+  refine ⟨?_, ?_⟩
+  · unfold Stride.Pattern.canonicalize; rw [if_neg h]
+    simp [Stride.Pattern.verify]
+  · rw [Stride.canonicalize_loops p h]
+    intro x hx
+    unfold Stride.canonLoops at hx
+    exact Stride.fixed_shape _ (Stride.foldl_step_fixed p.loops [] trivial) x (List.mem_reverse.mp hx)
+
+/-- Non-vacuity: unit bound dropped, two loops merged, zero bound kept with stride 0, sequence equal. -/
+example : Stride.canonLoops [(4, 2), (1, 7), (3, 8), (2, 100), (0, 5)] = [(12, 2), (2, 100), (0, 0)] := by
+  decide
+example : Stride.offs [(2, 1), (1, 7), (3, 2)] = [0, 1, 2, 3, 4, 5] ∧
+    Stride.canonLoops [(2, 1), (1, 7), (3, 2)] = [(6, 1)] := by decide
+example : (Stride.Pattern.mk [2, 3] [1, 2] [0, 8]).canonicalize = Stride.Pattern.mk [2, 3] [1, 2] [0, 8] := by
+  decide
+
+/-! ## (2) `pack_bitlist` -/
+open Pack in
+theorem pack_eq_fold (vs os : List Nat) (t : Tree) (h : pack vs os = .ok (some t)) :
+    t.eval = (List.zipWith (· <<< ·) vs os).foldl (· ||| ·) 0 := by
+  unfold pack at h
+  cases hs : shifted vs os with
+  | none => simp [hs] at h
+  | some l =>
+    simp only [hs, Except.ok.injEq] at h
+    cases l with
+    | nil => simp [orLoop] at h
+    | cons a l =>
+      obtain ⟨t', ht', hv⟩ := orLoop_spec (a :: l).length (a :: l) (by simp) (by simp)
+      rw [ht'] at h
+      simp at h
+      subst h
+      rw [hv, shifted_eval vs os _ hs]
+      rfl
+
+open Pack in
+/-- `pack_bitlist` raises exactly on unequal lengths (strict zip), emits nothing for empty lists and
+one tree otherwise. -/
+theorem pack_total (vs os : List Nat) :
+    (vs.length ≠ os.length → pack vs os = .error .lengthMismatch) ∧
+    (vs.length = os.length → vs ≠ [] → ∃ t, pack vs os = .ok (some t)) ∧
+    pack [] [] = .ok none := by
+  refine ⟨fun h => ?_, fun h hne => ?_, rfl⟩
+  · unfold pack; rw [(shifted_none_iff vs os).mpr h]
+  · unfold pack
+    cases hs : shifted vs os with
+    | none => exact absurd h ((shifted_none_iff vs os).mp hs)
+    | some l =>
+      have hl := (shifted_length vs os l hs).1
+      have hne' : l ≠ [] := by
+        intro hc; subst hc
+        exact hne (List.length_eq_zero_iff.mp hl.symm)
+      obtain ⟨t, ht, _⟩ := orLoop_spec l.length l hne' (Nat.le_succ _)
+      exact ⟨t, by simp [ht]⟩
+
+open Pack in
+/-- Field extraction on the emitted tree: for pairwise disjoint fields whose values fit their widths,
+field `i` is read back from the packed word by shift-and-mask. -/
+theorem pack_extract (fs : List Field) (t : Tree)
+    (h : pack (fs.map (·.v)) (fs.map (·.o)) = .ok (some t))
+    (disjoint_clause : Disjoint fs) (inRange_clause : InRange fs) (i : Nat) (hi : i < fs.length) :
+    (t.eval >>> fs[i].o) % 2 ^ fs[i].w = fs[i].v := by
+  rw [pack_eq_fold _ _ t h]
+  exact Pack.spec_extract fs disjoint_clause inRange_clause i hi
+
+open Pack in
+/-- `dtype`-bit machine arithmetic computes the same word when every field ends below bit `W`. -/
+theorem pack_fits_width (fs : List Field) (t : Tree) (W : Nat)
+    (h : pack (fs.map (·.v)) (fs.map (·.o)) = .ok (some t))
+    (inRange_clause : InRange fs) (fits_clause : ∀ f ∈ fs, f.o + f.w ≤ W) :
+    t.evalW W = t.eval := by
+  rw [evalW_eq, Nat.mod_eq_of_lt]
+  rw [pack_eq_fold _ _ t h]
+  exact Pack.spec_lt fs inRange_clause W fits_clause
+
+/-- Without disjointness extraction fails (why the clause is there): two overlapping fields. -/
+theorem pack_extract_overlap_fails :
+    ¬ ∀ (fs : List Pack.Field) (t : Pack.Tree), Pack.pack (fs.map (·.v)) (fs.map (·.o)) = .ok (some t) →
+      Pack.InRange fs → ∀ (i : Nat) (hi : i < fs.length), (t.eval >>> fs[i].o) % 2 ^ fs[i].w = fs[i].v := by
+  intro h
+  have := h [⟨1, 0, 2⟩, ⟨1, 1, 2⟩] (.or (.shl 1 0) (.shl 1 1)) (by rfl)
+    (by intro f hf; simp at hf; rcases hf with rfl | rfl <;> decide) 0 (by decide)
+  revert this
+  decide
+
+/-- Non-vacuity: the gemmx word `[min, max, zp_out, zp_in]` at offsets `[24, 16, 8, 0]`; the tree is
+`(v0 | v1) | (v2 | v3)` (queue order: for three values it is `v2 | (v0 | v1)`), its value the OR of the shifted fields. -/
+example : Pack.pack [0x80, 0x7f, 5, 3] [24, 16, 8, 0]
+    = .ok (some (.or (.or (.shl 0x80 24) (.shl 0x7f 16)) (.or (.shl 5 8) (.shl 3 0)))) := by rfl
+example : Pack.pack [1, 2, 3] [0, 4, 8] = .ok (some (.or (.shl 3 8) (.or (.shl 1 0) (.shl 2 4)))) := by rfl
+example : Pack.Disjoint [⟨0x80, 24, 8⟩, ⟨0x7f, 16, 8⟩, ⟨5, 8, 8⟩, ⟨3, 0, 8⟩] := by
+  intro i j hi hj hij
+  simp at hi hj
+  have : i = 0 ∨ i = 1 ∨ i = 2 ∨ i = 3 := by omega
+  have : j = 0 ∨ j = 1 ∨ j = 2 ∨ j = 3 := by omega
+  rcases ‹i = 0 ∨ _› with rfl | rfl | rfl | rfl <;> rcases ‹j = 0 ∨ _› with rfl | rfl | rfl | rfl <;> simp at hij ⊢
+
+/-! ## (3) AffineTransform -/
+open AT in
+/-- `to_affine_map`: result `i` of the built map evaluates to `(A·x + b)[i]`, for every matrix, vector
+and point (no shape hypothesis: both sides truncate alike). -/
+theorem toMap_eval (t : Transform) (x : List Int) :
+    t.toMap.map (fun e => e.eval (envOf x)) = (vecAdd (matVec t.A x) t.b).map some := by
+  unfold Transform.toMap vecAdd matVec
+  generalize t.A = A
+  generalize t.b = b
+  induction A generalizing b with
+  | nil => simp
+  | cons row A ih =>
+    cases b with
+    | nil => simp
+    | cons b0 b =>
+      simp only [List.zipWith_cons_cons, List.map_cons, toMapRow_eval, ih b]
+
+open AT in
+theorem compose_eval (s o c : Transform) (hc : s.compose o = .ok c)
+    (ho : ∀ r ∈ o.A, r.length = o.nd)
+    (hsb : s.A.length = s.b.length) (hob : o.A.length = o.b.length)
+    (x : List Int) :
+    c.eval x = (o.eval x).bind s.eval := by
+  unfold Transform.compose at hc
+  split at hc
+  · cases hc
+  · next hnd =>
+    injection hc with hc
+    subst hc
+    have hnd' : s.nd = o.A.length := Decidable.of_not_not hnd
+    unfold Transform.eval
+    simp only []
+    by_cases hx : x.length = o.nd
+    · have hlen : (vecAdd (matVec o.A x) o.b).length = s.nd := by
+        simp [vecAdd, matVec, hnd', hob]
+      simp only [hx, ne_eq, not_true_eq_false, if_false, Except.bind, hlen]
+      congr 1
+      unfold matMul matVec
+      -- row by row
+      have hrow : ∀ r ∈ s.A, dot ((List.range o.nd).map fun j => dot r (col o.A j)) x + dot r o.b
+          = dot r (vecAdd (o.A.map (dot · x)) o.b) := by
+        intro r _
+        rw [dot_matMul_row o.nd x hx r o.A ho, dot_vecAdd_right]
+        · rfl
+        · simp [hob]
+      generalize s.b = sb at hsb ⊢
+      revert hrow
+      generalize s.A = sA at hsb ⊢
+      intro hrow
+      induction sA generalizing sb with
+      | nil => simp [vecAdd]
+      | cons r sA ih =>
+        cases sb with
+        | nil => simp at hsb
+        | cons b0 sb =>
+          simp only [vecAdd, List.map_cons, List.zipWith_cons_cons, List.cons.injEq]
+          constructor
+          · have := hrow r List.mem_cons_self
+            simp only [vecAdd] at this
+            rw [← this]
+            omega
+          · exact ih sb (by simpa using hsb) (fun r' hr' => hrow r' (List.mem_cons_of_mem _ hr'))
+    · simp [hx, Except.bind]
+
+
+/-- The full statement (false: a raw product of two dimensions is accepted and mis-converted). -/
+def fromMap_statement : Prop :=
+  ∀ (n : Nat) (rs : List AExpr) (t : AT.Transform), AT.fromMap n rs = .ok t →
+    ∀ x : List Int, x.length = n →
+      (t.eval x).toOption.map (·.map some) = some (rs.map fun e => e.eval (AT.envOf x))
+
+open AT in
+/-- clause `mulConstSide`: every product has a dimension-free side. -/
+theorem fromMap_linear_partial (n : Nat) (rs : List AExpr) (t : Transform) (h : fromMap n rs = .ok t)
+    (mulConstSide_clause : ∀ e ∈ rs, mulConstSide e = true)
+    (x : List Int) (hx : x.length = n) :
+    (t.eval x).toOption.map (·.map some) = some (rs.map fun e => e.eval (envOf x)) := by
+  obtain ⟨hchk, _, _⟩ := AT.fromMap_checks n rs t h
+  unfold fromMap at h
+  split at h
+  · cases h
+  · split at h
+    · cases h
+    · injection h with h
+      subst h
+      simp only [Transform.eval, hx, ne_eq, not_true_eq_false, if_false, Except.toOption,
+        Option.map_some, Option.some.injEq]
+      unfold vecAdd matVec
+      rw [List.map_map, List.zipWith_map_left, List.zipWith_map_right, List.zipWith_self, List.map_map]
+      apply List.map_congr_left
+      intro e he
+      simp only [Function.comp]
+      exact (fromMap_row n e (hchk e he).1 (mulConstSide_clause e he) (hchk e he).2 x hx).symm
+
+theorem fromMap_nonlinear_fails : ¬ fromMap_statement := by
+  intro h
+  have := h 2 [.bin .mul (.dim 0) (.dim 1)] ⟨2, [[0, 0]], [0]⟩ (by rfl) [2, 3] rfl
+  revert this
+  decide
+
+
+/-- Non-vacuity: `[[1,2],[0,3]]·x + [5,-1]` as a map, composition, and the matrix of a map. -/
+example : (AT.Transform.mk 2 [[1, 2], [0, 3]] [5, -1]).toMap
+    = [.bin .add (.bin .add (.dim 0) (.const 5)) (.bin .mul (.dim 1) (.const 2)),
+       .bin .add (.bin .mul (.dim 1) (.const 3)) (.const (-1))] := by decide
+example : (AT.Transform.mk 2 [[1, 2], [0, 3]] [5, -1]).compose (AT.Transform.mk 1 [[2], [1]] [1, 0])
+    = .ok (AT.Transform.mk 1 [[4], [3]] [6, -1]) := by rfl
+example : AT.fromMap 2 [.bin .add (.bin .mul (.const 3) (.bin .add (.dim 1) (.const 2))) (.dim 0)]
+    = .ok (AT.Transform.mk 2 [[1, 3]] [6]) := by rfl
+example : AT.mulConstSide (.bin .add (.bin .mul (.const 3) (.bin .add (.dim 1) (.const 2))) (.dim 0)) = true := by
+  decide
+
+/-! ## (4) attribute print -> parse round trips (token level) -/
+
+/-- `StridePattern`: parsing what was printed gives the attribute back, for all integer arrays (any
+lengths, negative entries included) and whatever follows. -/
+theorem stridePattern_roundtrip (p : Syntax.SPAttr) (rest : List Syntax.Tok) :
+    Syntax.parseSP (Syntax.printSP p ++ rest) = some (p, rest) :=
+  Syntax.parseSP_print p rest
+
+/-- The full statement for streamer configurations (false on the unchanged tree: D16). `nonempty` is
+the class invariant `assert len(streamers)`. -/
+def streamerCfg_statement : Prop :=
+  ∀ c : Syntax.Config, c.streamers ≠ [] → Syntax.parseCfg (Syntax.printCfg c) = some (c, [])
+
+/-- What does hold for every configuration: everything but the system type survives. -/
+theorem streamerCfg_roundtrip_modulo_sys (c : Syntax.Config) (nonempty : c.streamers ≠ []) :
+    Syntax.parseCfg (Syntax.printCfg c) = some ({ c with sys := .regular }, []) := by
+  have := Syntax.parseCfg_print c nonempty []
+  simpa using this
+
+/-- clause `regular_clause`: the system type is the default one. -/
+theorem streamerCfg_roundtrip_partial (c : Syntax.Config) (nonempty : c.streamers ≠ [])
+    (regular_clause : c.sys = .regular) :
+    Syntax.parseCfg (Syntax.printCfg c) = some (c, []) := by
+  rw [streamerCfg_roundtrip_modulo_sys c nonempty]
+  obtain ⟨ss, sys⟩ := c
+  simp only [] at regular_clause
+  subst regular_clause
+  rfl
+
+/-- D16: an `xdma` configuration prints without its system type and parses back as `reg`. -/
+theorem streamerCfg_xdma_fails : ¬ streamerCfg_statement := by
+  intro h
+  have := h ⟨[⟨.reader, [.normal], [8], [.memset]⟩], .xdma⟩ (by simp)
+  revert this
+  decide
+
+/-- Non-vacuity: a two-streamer configuration with options, a reuse flag and two spatial dims. -/
+example : Syntax.printCfg ⟨[⟨.reader, [.normal, .reuse], [8, 4], [.channelMask, .addressRemap]⟩,
+      ⟨.writer, [], [], []⟩], .regular⟩
+    = [.lt, .ident "r", .lsq, .ident "opts", .eq, .ident "c", .minus, .ident "a", .comma, .ident "temp", .eq,
+       .ident "n", .minus, .ident "r", .comma, .ident "spat", .eq, .nat 8, .minus, .nat 4, .rsq, .comma,
+       .ident "w", .lsq, .ident "temp", .eq, .comma, .ident "spat", .eq, .rsq, .gt] := by decide
+example : Syntax.printSP ⟨[2, -3], [0], []⟩
+    = [.lt, .ident "ub", .eq, .lsq, .nat 2, .comma, .minus, .nat 3, .rsq, .comma, .ident "ts", .eq, .lsq, .nat 0,
+       .rsq, .comma, .ident "ss", .eq, .lsq, .rsq, .gt] := by decide
 
 end SnaxVerif.C19
